@@ -400,6 +400,8 @@ class Layer(BaseObject):
         if self._glyphSet is not None:
             glyphNames = set(self._glyphSet.contents.keys()) - set(self._glyphs.keys()) - set(self._scheduledForDeletion.keys())
             for glyphName, fileName in self._glyphSet.getImageReferences(glyphNames).items():
+                if fileName is None:
+                    continue
                 if fileName not in found:
                     found[fileName] = []
                 found[fileName].append(glyphName)
